@@ -42,6 +42,10 @@ CLAIMED = {
          "Exploration: Polynomial<K>::least_squares for K = 2..6 on asymmetric, offset, clustered and repeated abscissae with and without weights (exact data must be recovered; for arbitrary data the weighted residual must be orthogonal to every monomial column, hence optimal); Series1::best_fit_line against the degree-1 fit; Circle2::fitting_circle from nearby guesses on arcs of 60..360 degrees (exact recovery, stationarity for noisy data); Circle2::from_3_points on triangles with min angle >= 5 degrees and exactly collinear triples; seeded Circle2::ransac on contaminated data.",
          "Bounds scale with the condition number of the weighted Gram matrix computed by the oracle's SVD (cond > 1e7 skipped and counted); circle-fit gradient bound 1e-4|J||r| plus the rounding floor; Gaussian weighting judged on exact samples only.",
          "3 / C09"),
+ "C10": ("runtime monitor: sections generated as envelopes of circles along a known camber curve (closed-form medial axis, radius law, edge apexes, gauge thicknesses); metamorphic twins (rigid motion, reversed vertex order, rotated start vertex; the same locator at the front and at the back of the camber line); step counters hooked into the search loops",
+         "Exploration: closed and open sections (camber length 0.3..300, straight and curved camber, thickness 4-25%, maximum at 28-42%, 200-3000 unevenly spaced points, any pose, mirror image, both windings, any start vertex) analysed with {TMaxFwd, DirectionFwd(+-chord)} x 8 edge locators at either end x {Detect, UpperDir} x three tolerances. Every accepted analysis: each station's distance to the section equals its radius, contacts on the section one radius away on opposite sides, stations ordered from leading to trailing edge, centres on the known camber and radii on the known law, edge points on the section / at the camber ends / at the requested end, surfaces partition the perimeter on the requested or detected side, find_tmax / get_thickness_max / OnCamber and Radius gauges against closed forms; twins give the same measurements; every analysis runs under a step bound (hook).",
+         "An Err is 'not accepted' and is not judged (acceptance per locator is reported). The analysis tolerance is at least twice the chord sag of the sampled section. Stations and edge points added by the heuristic locators (ConstRadiusEdge, TraceToMaxCurvature, ConvergeTangentEdge, RansacRadiusEdge) are judged with the same clauses but reported as one clause per locator (four known findings); the measurement clauses are judged for configurations that use IntersectEdge / FitRadiusEdge / OpenEdge / OpenIntersectGap only.",
+         "3 / C10"),
  "C11": ("runtime monitor: defining-constraint oracle with a configuration classifier (exactly constructed tangent cases) and an independently computed bounding box",
          "Exploration: circle-circle intersections in every relative position (separate, externally/internally tangent, crossing, nested, concentric, equal radii, identical), intersection intervals, circle-segment and curve-circle intersections, tangent points from external points at d/r from 1+1e-6 to 1e3, outer tangent segments, arcs by angles and through three points (start/end/sweep sign/length/fraction), and the cached bounding boxes of circles and arcs against dense samples and an independent box.",
          "Tangent configurations are built on dyadic, axis-aligned coordinates so that they are exact; non-constructed cases stay >= 1e-6 r away from tangency; on-object tolerance 1e-9*scale. The private line-circle primitive is observed through the public segment intersection. Known finding: reversed left/right order of outer tangents for equal radii (cannot be repaired without editing an existing unit test).",
